@@ -44,6 +44,9 @@ func (p *Prog) verifyFunction(f *ssa.Function, c *Contract) (res *FnResult) {
 	ex.contract = c
 	ex.top = true
 	ex.skipSafety = c.NoSafety
+	for g := range p.contracts.GhostNames {
+		q.so.keySort["GH:"+g] = arrSort(sInt, sInt)
+	}
 	h0 := q.newHeap()
 	a0 := q.heapGet(h0, allocKey)
 	q.assume(lt(tInt(int64(len(p.globals)+64)), a0))
